@@ -161,7 +161,8 @@ def run(ctx):
     # ---- r5 read side: what is SERVED as trusted comes from proved state or the store ---------------
     # A peer's announced (unproved) last state lives in PeerState.last_state; only the sync state machine may read it.
     ctx.only_callers('C01.r5', 'PeerState::get_last_state',
-                     {'LightClientProtocol::get_last_state_proof', 'Peers::get_peers_which_have_timeout', 'SendLastStateProcess::execute'}, 3)
+                     {'LightClientProtocol::get_last_state_proof', 'Peers::get_peers_which_have_timeout', 'SendLastStateProcess::execute',
+                      'LightClientProtocol::process_last_state'}, 3)   # process_last_state: compared with the incoming header only (F64)
     unproved = {'PeerState::get_last_state', 'LastState::header', 'LastState::total_difficulty', 'PeerState::get_prove_request', 'ProveRequest::get_last_header'}
     servers = [b.name for b in P.bodies if b.file and b.file.endswith('src/service.rs') and '{closure' not in b.name and ' as ' in b.name and 'Rpc>' in b.name]
     servers += [b.name for b in P.bodies if '{closure' not in b.name and b.name.startswith('<StorageWithChainData as ')]
